@@ -22,8 +22,26 @@ def svd_cases(draw, tier, size=None):
     m, n = draw(st.integers(lo, hi)), draw(st.integers(lo, hi))
     m, n = draw(gen.maybe_high_aspect(m, n))
     k = min(m, n)
-    src = draw(st.sampled_from(["spectrum", "spectrum", "spectrum", "pattern", "zero"]))
-    if src == "spectrum":
+    src = draw(st.sampled_from(["spectrum", "spectrum", "spectrum", "pattern", "zero", "hermitian", "diagonal"]))
+    if src == "hermitian":
+        # exactly Hermitian with eigenvalues of both signs and distinct moduli (sigma_i = |lambda_i|, simple)
+        m = n
+        k = n
+        mods = draw(st.lists(st.integers(1, 64), min_size=n, max_size=n, unique=True))
+        sg = draw(st.lists(st.sampled_from([1.0, -1.0]), min_size=n, max_size=n))
+        if n >= 2 and all(x > 0 for x in sg):
+            sg[0] = -1.0
+        A = draw(gen.hermitian_with_spectrum(n, [a * b / 8.0 for a, b in zip(mods, sg)]))
+        kind = "hermitian_indefinite"
+    elif src == "diagonal":
+        # exactly diagonal (square or rectangular), unsorted distinct moduli with quaternion phases: the sorting
+        # permutation is generic (cycles of length >= 3)
+        mods = draw(st.lists(st.integers(1, 64), min_size=k, max_size=k, unique=True))
+        A = np.zeros((m, n, 4))
+        for i in range(k):
+            A[i, i] = draw(gen.unit_q(exact=True)) * (mods[i] / 8.0)
+        kind = "diagonal_unsorted"
+    elif src == "spectrum":
         s, skind = draw(gen.spectrum(k, scale_exp=(-3, 3)))
         A = draw(gen.matrix_with_svals(m, n, s))
         kind = "spectrum:" + skind
